@@ -27,6 +27,7 @@
 #include <sys/stat.h>
 #include <sys/time.h>
 #include <sanitizer/common_interface_defs.h>
+#include <sanitizer/asan_interface.h>
 
 SimKnobs K;
 int sim_stack_junk = -1;
@@ -273,6 +274,9 @@ static SimTask *task_new(SimProc *p) {
         if (m == MAP_FAILED) abort();
         mprotect(m, 4096, PROT_NONE);
         t->stack = m + 4096;
+        if (K.stack_mode > 0) sim_stack_junk = sim_stack_scribble = K.stack_mode - 1;
+        /* the address range may have held the stack of a task that died mid-call: its frames' shadow poison is stale */
+        __asan_unpoison_memory_region((char *)t->stack, t->stack_sz);
         if (sim_stack_junk >= 0) {   /* fresh stacks are zero pages: make reads of uninitialised locals visible */
             size_t fill = 2u << 20;
             memset((char *)t->stack + t->stack_sz - fill, sim_stack_junk & 0xff, fill);
